@@ -95,7 +95,7 @@ def run_subprocess(cfgs, hashseed, wd, name):
 SAFE_PATTERNS = ["neg", "const", "tied", "noisy", "gridpm", "zero"]   # rewards that do not depend on the point
 
 
-def base_cfgs(tier, base_id, algos, reps, rng_free=False, seedoff=0, n_choices=(100, 128)):
+def base_cfgs(tier, base_id, algos, reps, rng_free=False, seedoff=0, n_choices=(100, 128), vary=False):
     rnd = random.Random(C.seed() + 131 + seedoff)
     out = []
     i = base_id
@@ -114,8 +114,12 @@ def base_cfgs(tier, base_id, algos, reps, rng_free=False, seedoff=0, n_choices=(
             if algo == "StroquOOL":
                 n = max(n, 100)   # documented budgets are >= 100 (h_max = 0 below ~62)
             prm = {}
+            if vary and algo in ("T_HOO", "HCT", "VHCT", "Zooming"):
+                prm = {"nu": rnd.choice([1, 0.5, 2.0]), "rho": rnd.choice([0.5, 0.7, 0.9])}
+                if algo in ("HCT", "VHCT"):
+                    prm.update({"c": rnd.choice([0.1, 0.3]), "delta": rnd.choice([0.01, 0.1])})
             if algo in ("POO", "GPO", "PCT", "VPCT"):
-                prm = {"rhomax": 0.9, "base": rnd.choice(["T_HOO", "HCT", "VHCT"])}
+                prm = {"rhomax": rnd.choice([0.9, 0.87, 0.93]) if vary else 0.9, "base": rnd.choice(["T_HOO", "HCT", "VHCT"])}
             if algo == "VROOM":
                 prm = {"h_max": 8}
             i += 10
